@@ -113,8 +113,11 @@ def run_network(check, net, per_class):
 			continue
 		model = net.by_name[name]
 		is_abstract = codec.kind(model) == 'Struct' and model.is_abstract
-		for _ in range(per_class):
+		for index in range(per_class + 3):
+			# the first values of every class: all variable-length members empty (twice: both arms of the alternating conditionals), then longest
+			generator.extreme = {0: 'min', 1: 'min', 2: 'max'}.get(index)
 			tree = generator.struct(model, 0) if is_abstract else generator.named(name)
+			generator.extreme = None
 			try:
 				obj = codec.to_object(net, name, tree)
 			except codec.Inadmissible:
@@ -169,7 +172,7 @@ def run(check, unrecognised):
 		check.notes.append(f'anchors not recognised, pinned operators used: {unrecognised["ArrayOps"]}')
 	check.prove('C02.v')
 	codec.setup_paths()
-	per_class = 3 if check.tier == 'quick' else 60
+	per_class = 1 if check.tier == 'quick' else 60
 	for name in ('symbol', 'nem'):
 		try:
 			net = codec.load_net(name)
